@@ -330,7 +330,7 @@ def rebuild_case(src):
 
 
 def run_roundtrip(ctx):
-    n = ctx.n(60, 400)
+    n = ctx.n(220, 2200)
     for k in range(n):
         if ctx.time_left() < 25:
             ctx.notes.append("round-trip cases cut short at %d" % k)
@@ -348,7 +348,7 @@ def run_roundtrip(ctx):
 
 
 def run_histories(ctx, cases_out):
-    n = ctx.n(60, 400)
+    n = ctx.n(250, 2500)
     for k in range(n):
         if ctx.time_left() < 15:
             ctx.notes.append("histories cut short at %d" % k)
